@@ -14,6 +14,12 @@ import (
 	"context"
 	"encoding/xml"
 	"fmt"
+	"go/ast"
+	"go/parser"
+	"go/printer"
+	"go/token"
+	"path/filepath"
+	"sort"
 	"strings"
 	"sync"
 	"time"
@@ -633,6 +639,125 @@ func progOf(ws []string, id string, reads int, ret string) c08.Prog {
 	return p
 }
 
+// applicable reports whether the tokens can be written through the given method / value kind.
+func applicable(via int, ts []xml.Token) bool {
+	switch via {
+	case 0, 1, 2, 3:
+		return true
+	case 4:
+		return c08.StructWritable(ts)
+	}
+	if len(ts) < 2 {
+		return false
+	}
+	st, ok := ts[0].(xml.StartElement)
+	en, ok2 := ts[len(ts)-1].(xml.EndElement)
+	if !ok || !ok2 || st.Name != en.Name {
+		return false
+	}
+	// one element: the start tag closes only at the very end
+	d := 0
+	for i, t := range ts {
+		switch t.(type) {
+		case xml.StartElement:
+			d++
+		case xml.EndElement:
+			d--
+			if d == 0 && i != len(ts)-1 {
+				return false
+			}
+		}
+	}
+	return d == 0
+}
+
+// progVia is progOf with every write going through the method / value kind vias[i%len].
+func progVia(ws []string, id string, reads int, ret string, vias []int) c08.Prog {
+	p := progOf(ws, id, reads, ret)
+	k := 0
+	for i := range p.Ops {
+		if p.Ops[i].Read {
+			continue
+		}
+		v := vias[k%len(vias)]
+		k++
+		if applicable(v, p.Ops[i].Write) {
+			p.Ops[i].Via = v
+		}
+	}
+	return p
+}
+
+// Facts regenerates lean/XmppModel/Generated/C07.lean from the AST of session.go: through what
+// every writing method of responseChecker (the TokenReadEncoder handed to handlers) sends its
+// tokens.
+func Facts(repo string) (string, error) {
+	fset := token.NewFileSet()
+	f, err := parser.ParseFile(fset, filepath.Join(repo, "session.go"), nil, 0)
+	if err != nil {
+		return "", err
+	}
+	src := func(n ast.Node) string {
+		var sb strings.Builder
+		_ = printer.Fprint(&sb, fset, n)
+		return sb.String()
+	}
+	var rows []string
+	for _, d := range f.Decls {
+		fd, ok := d.(*ast.FuncDecl)
+		if !ok || fd.Recv == nil || len(fd.Recv.List) != 1 || fd.Body == nil {
+			continue
+		}
+		if src(fd.Recv.List[0].Type) != "*responseChecker" || len(fd.Recv.List[0].Names) != 1 {
+			continue
+		}
+		recv := fd.Recv.List[0].Names[0].Name
+		// every call in the body that is handed a writer or is a method of one
+		var sinks []string
+		detector := false
+		ast.Inspect(fd.Body, func(n ast.Node) bool {
+			switch x := n.(type) {
+			case *ast.AssignStmt:
+				if len(x.Lhs) == 1 && src(x.Lhs[0]) == recv+".wroteResp" {
+					detector = true
+				}
+			case *ast.CallExpr:
+				fn := src(x.Fun)
+				switch {
+				case strings.HasPrefix(fn, "marshal.") && len(x.Args) > 0:
+					a := src(x.Args[0])
+					if a == recv {
+						a = "checker"
+					}
+					sinks = append(sinks, fn+"("+a+")")
+				case strings.HasSuffix(fn, ".EncodeToken") || strings.HasSuffix(fn, ".Encode") || strings.HasSuffix(fn, ".EncodeElement"):
+					sinks = append(sinks, strings.Replace(fn, recv+".", "checker.", 1))
+				}
+			}
+			return true
+		})
+		if len(sinks) == 0 {
+			continue
+		}
+		if detector {
+			sinks = append([]string{"detector"}, sinks...)
+		}
+		rows = append(rows, fmt.Sprintf("(%q, %q)", fd.Name.Name, strings.Join(sinks, " ")))
+	}
+	sort.Strings(rows)
+	var sb strings.Builder
+	sb.WriteString("-- GENERATED by `harness facts C07` from the AST of session.go; do not edit.\n")
+	sb.WriteString("namespace XmppModel.Generated.C07\n\n")
+	sb.WriteString("/-- every method of `responseChecker` that writes, and where its tokens go: `checker` = back\nthrough the checker's own `EncodeToken` (which runs the reply detector), `checker.TokenWriter` =\nstraight to the session's writer -/\n")
+	if len(rows) == 0 {
+		sb.WriteString("def writePaths : Option (List (String × String)) := none\n")
+	} else {
+		sb.WriteString("def writePaths : Option (List (String × String)) := some [\n  " + strings.Join(rows, ",\n  ") + "]\n")
+	}
+	sb.WriteString("\nend XmppModel.Generated.C07\n")
+	return sb.String(), nil
+}
+
 // Run is the C07 runner.
 func Run(r *common.Run) error {
 	c := &ctx{r: r}
@@ -798,6 +923,30 @@ func Run(r *common.Run) error {
 			}
 		}
 	}
+	// every reply / non-reply shape written through all three methods of the encoder handed to
+	// handlers: EncodeToken, Encode(value) with a Marshaler / WriterTo / TokenReader / plain
+	// struct, EncodeElement(value, start) with a Marshaler / WriterTo
+	for _, ns := range []string{c08.NSClient, c08.NSServer} {
+		for _, typ := range []string{"get", "set", "result"} {
+			e := element("iq", "", "vq", typ, "a@example.org/r", "-", "", payloads[0])
+			for _, w := range writeNames {
+				for via := 1; via <= 6; via++ {
+					if !applicable(via, writes("vq")[w]) {
+						continue
+					}
+					for _, m := range []string{"d", "r"} {
+						c.check(ns, m, e, progVia([]string{w}, "vq", via%3, "ok", []int{via}), "exhaustive-via")
+					}
+				}
+			}
+			// two writes through different methods
+			for via := 0; via <= 6; via++ {
+				c.check(ns, "d", e, progVia([]string{"message", "result"}, "vq", 0, "ok", []int{via, (via + 3) % 7}), "exhaustive-via")
+				c.check(ns, "d", e, progVia([]string{"nested", "otherid"}, "vq", 0, "ok", []int{(via + 1) % 7, via}), "exhaustive-via")
+			}
+		}
+	}
+
 	// handlers that return an error value after writing 0 / 1 / 2 replies: plain error,
 	// io.EOF, stanza.Error, stream.Error; direct and behind the mux (registered), for every
 	// IQ type
@@ -938,7 +1087,7 @@ func Run(r *common.Run) error {
 		if mode != "d" && (from == "a@b@c") {
 			mode = "d"
 		}
-		c.check(ns, mode, e, progOf(ws, wid, rnd.Intn(6), ret), "random")
+		c.check(ns, mode, e, progVia(ws, wid, rnd.Intn(6), ret, []int{rnd.Intn(7), rnd.Intn(7), 0}), "random")
 	}
 	return nil
 }
